@@ -471,6 +471,19 @@ def run_case(case, rec, mon=None):
         rows = max(2, int(rng.integers(2, 30)))
         x = (rng.standard_normal((rows, F)) * (np.std(data.astype(np.float64), 0) + 0.5) + np.mean(data.astype(np.float64), 0)).astype(rng.choice(["float64", "float32"]))
         x.setflags(write=False)
+        if case["idx"] % 2 == 0:
+            # first a call that fails: a tensor with a constant coefficient, in a program that turns warnings into errors.  A call
+            # that raised has standardised nothing and has left nothing behind
+            xc = np.array(x, dtype=np.float64)
+            xc[:, int(rng.integers(F))] = 3.0
+            xc.setflags(write=False)
+            try:
+                with monitor.strict_settings():
+                    fresh.apply(xc)
+            except Exception:
+                rec.count("self_standardising_calls_that_raised_before_the_judged_one")
+            if bool(fresh.have_stats):
+                mon.v("have_stats is true on an instance that never accumulated, after an apply() that raised", check="have_stats", op="apply")
         try:
             fresh.apply(x)
             x3 = np.array(np.moveaxis(x.reshape(rows, 1, F), -1, 0)); x3.setflags(write=False)
